@@ -7,15 +7,18 @@ namespace AGH.C09
 
 /-- `AllKept` strengthened so that it is inductive. -/
 def AK (g : Ghost) : Prop :=
+  g.now ≤ g.clock ∧
   ∀ e ∈ g.evs, e.hour ≤ g.now ∧ (inWindow g.now g.limit e.hour = true → e.kept = true)
 
-theorem AK.allKept {g : Ghost} (h : AK g) : AllKept g := fun e he => (h e he).2
+theorem AK.allKept {g : Ghost} (h : AK g) : AllKept g := fun e he => (h.2 e he).2
 
 theorem ak_rekeep {g : Ghost} (h : AK g) (id : Nat) (hid : g.now ≤ id) (en d : Bool) :
-    AK { evs := rekeep (inWindow id g.limit) g.evs, now := id, limit := g.limit, enabled := en, dom := d } := by
+    AK { evs := rekeep (inWindow id g.limit) g.evs, now := id, clock := id, limit := g.limit, enabled := en,
+         dom := d } := by
+  refine ⟨Nat.le_refl _, ?_⟩
   intro e' he'
   obtain ⟨e, he, h1, h2⟩ := mem_rekeep he'
-  obtain ⟨a1, a2⟩ := h e he
+  obtain ⟨a1, a2⟩ := h.2 e he
   refine ⟨by rw [h1]; exact Nat.le_trans a1 hid, ?_⟩
   intro hw
   rw [h1] at hw
@@ -27,28 +30,44 @@ theorem ak_rekeep {g : Ghost} (h : AK g) (id : Nat) (hid : g.now ≤ id) (en d :
   rw [h2, a2 hwin, hw]
   rfl
 
+/-- Re-evaluating `kept` at the same hour with the same limit changes nothing. -/
+theorem ak_same {g : Ghost} (h : AK g) (en : Bool) :
+    AK { g with evs := rekeep (inWindow g.now g.limit) g.evs, enabled := en } := by
+  refine ⟨h.1, ?_⟩
+  intro e' he'
+  obtain ⟨e, he, h1, h2⟩ := mem_rekeep he'
+  obtain ⟨a1, a2⟩ := h.2 e he
+  refine ⟨by rw [h1]; exact a1, ?_⟩
+  intro hw
+  rw [h1] at hw
+  rw [h2, a2 hw, hw]
+  rfl
+
 theorem ak_step {g : Ghost} {L : Nat} (hl : g.limit = L) (h : AK g) (op : Op) (hk : keepsLimit L op)
     (hd : (ghostStep g op).dom = true) : AK (ghostStep g op) ∧ (ghostStep g op).limit = L := by
   cases op with
   | upd e n =>
     simp only [ghostStep]
     split
-    · refine ⟨?_, hl⟩
+    · refine ⟨⟨h.1, ?_⟩, hl⟩
       intro e' he'
       rcases List.mem_cons.mp he' with rfl | he'
       · exact ⟨Nat.le_refl _, fun _ => rfl⟩
-      · exact h e' he'
+      · exact h.2 e' he'
     · exact ⟨h, hl⟩
   | tick id =>
     simp only [ghostStep, Ghost.refresh, Ghost.advance, Bool.and_eq_true, decide_eq_true_eq] at hd
-    exact ⟨ak_rekeep h id hd.1.2 _ _, hl⟩
+    exact ⟨ak_rekeep h id (Nat.le_trans h.1 hd.1.2) _ _, hl⟩
+  | advance h' =>
+    simp only [ghostStep, Ghost.wall, Bool.and_eq_true, decide_eq_true_eq] at hd
+    exact ⟨⟨Nat.le_trans h.1 hd.1.2, h.2⟩, hl⟩
   | restart id l en =>
     simp only [ghostStep, Ghost.refresh, Ghost.advance, Bool.and_eq_true, decide_eq_true_eq] at hd
     simp only [keepsLimit] at hk
     have : l / msPerHour = g.limit := by rw [hk, hl]
     refine ⟨?_, hk⟩
     simp only [ghostStep, Ghost.advance, refresh_eq, this]
-    exact ak_rekeep h id hd.1.2 _ _
+    exact ak_rekeep h id (Nat.le_trans h.1 hd.1.2) _ _
   | setDays d =>
     simp only [keepsLimit] at hk
     simp only [ghostStep]
@@ -57,9 +76,9 @@ theorem ak_step {g : Ghost} {L : Nat} (hl : g.limit = L) (h : AK g) (op : Op) (h
       have : d * 24 = g.limit := by rw [hk h1, hl]
       refine ⟨?_, hk h1⟩
       simp only [refresh_eq, this]
-      exact ak_rekeep h g.now (Nat.le_refl _) _ _
+      exact ak_same h true
     · split
-      · exact ⟨fun e he => by simp at he, hl⟩
+      · exact ⟨⟨Nat.le_refl _, fun e he => by simp at he⟩, hl⟩
       · exact ⟨h, hl⟩
   | putConf ms en =>
     simp only [keepsLimit] at hk
@@ -69,9 +88,9 @@ theorem ak_step {g : Ghost} {L : Nat} (hl : g.limit = L) (h : AK g) (op : Op) (h
       have : ms / msPerHour = g.limit := by rw [hk h1, hl]
       refine ⟨?_, hk h1⟩
       simp only [refresh_eq, this]
-      exact ak_rekeep h g.now (Nat.le_refl _) _ _
+      exact ak_same h en
     · exact ⟨h, hl⟩
-  | clear => exact ⟨fun e he => by simp [ghostStep] at he, hl⟩
+  | clear => exact ⟨⟨Nat.le_refl _, fun e he => by simp [ghostStep] at he⟩, hl⟩
   | read => exact ⟨h, hl⟩
 
 theorem ak_run {g : Ghost} {L : Nat} (ops : List Op) (hl : g.limit = L) (h : AK g)
@@ -83,7 +102,7 @@ theorem ak_run {g : Ghost} {L : Nat} (ops : List Op) (hl : g.limit = L) (h : AK 
     obtain ⟨h1, h2⟩ := ak_step hl h op (hk op (List.mem_cons_self ..)) (dom_run hd)
     exact ih h2 h1 (fun o ho => hk o (List.mem_cons_of_mem _ ho)) hd
 
-theorem ak_init (clock ms : Nat) (en : Bool) : AK (Ghost.init clock ms en) := by
-  intro e he; simp [Ghost.init] at he
+theorem ak_init (clock ms : Nat) (en : Bool) : AK (Ghost.init clock ms en) :=
+  ⟨Nat.le_refl _, fun e he => by simp [Ghost.init] at he⟩
 
 end AGH.C09
